@@ -256,12 +256,15 @@ func C15(tier string) int {
 		l.Count("violation_combinations", 1)
 	})
 	// part 2: the model is AST-driven, so it is exact on every file of the catalogue sweep too
-	cases := explore.Cases(explore.CaseOpts{Tier: tier, Prefixes: true, Edits: true, OnlyFamily: "struct"})
-	explore.ParallelEach(len(cases), c, deadline, func(i int, l *report.Local) {
-		cs := &cases[i]
-		w := world.Build(cs.Spec())
-		c15Check(w, cs.File, cs.Text, cs.Entry.ID, cs.Entry.Mk(), c, l)
-		l.Count("catalogue_files", 1)
+	groups := explore.Groups(explore.CaseOpts{Tier: tier, Prefixes: true, Edits: true, OnlyFamily: "struct"})
+	explore.ParallelEach(len(groups), c, deadline, func(i int, l *report.Local) {
+		cases := groups[i]()
+		for j := range cases {
+			cs := &cases[j]
+			w := world.Build(cs.Spec())
+			c15Check(w, cs.File, cs.Text, cs.Entry.ID, cs.Entry.Mk(), c, l)
+			l.Count("catalogue_files", 1)
+		}
 	})
 	c.Sample(map[string]any{"config": cfgs[len(cfgs)/2], "expected": fmtExp(func() []model.ExpDiag {
 		f := world.ParseFile("main.tf", cfgs[len(cfgs)/2])
